@@ -484,6 +484,16 @@ def runPlain : List (String × Args) → Prog → List (String × Args) × End
     | (j1, .out o) => runPlain j1 (k o)
     | (j1, .interrupt i) => (j1, .interrupt i)
 
+/-- a predicate on every intercepted-call node of a program (bodies and all continuations included) -/
+def Prog.All (Qi : InCfg → Args → Prog → Prop) (Qo : OutCfg → Args → Prog → Prop) : Prog → Prop
+  | .done _ => True
+  | .callIn cfg args body k => Qi cfg args body ∧ body.All Qi Qo ∧ ∀ o, (k o).All Qi Qo
+  | .callOut cfg args body k => Qo cfg args body ∧ body.All Qi Qo ∧ ∀ o, (k o).All Qi Qo
+  | .discard k => k.All Qi Qo
+  | .force k => k.All Qi Qo
+  | .recordData _ _ k => k.All Qi Qo
+  | .playData _ k => ∀ o, (k o).All Qi Qo
+
 /-- idle: neither recording nor replaying, no sticky force, numbering restarted, suppression flag clear -/
 def St.Idle (s : St) : Prop :=
   s.active = none ∧ s.forced = false ∧ s.counter = [] ∧ s.playback = none ∧ s.playbackOutputs = [] ∧ s.inInt = false
